@@ -7,6 +7,7 @@ import (
 
 	"verif/checker/core"
 	"verif/checker/rules"
+	"verif/checker/tmpl"
 )
 
 // tmplC09: the keep_unknown_fields clauses on abstract renderings.
@@ -26,6 +27,9 @@ func tmplC09(c *core.Check) {
 	agg := newAggregate()
 	runUnits(c, st, units, func(r *rendered) {
 		k := r.U.key()
+		if _, gf := r.R.Err.(*tmpl.GenFailure); gf {
+			return // the generator itself refuses this input: no generated code to judge
+		}
 		if r.R.Err != nil || r.ParseErr != nil {
 			agg.check("renders", k)
 			agg.fail("renders", k, fmt.Sprintf("under [%s]: %v %v", r.R.Valuation, r.R.Err, r.ParseErr))
